@@ -484,10 +484,20 @@ impl FileCombiner {
             debug_assert!(self.buf.is_empty());
             return Ok(());
         }
-        let hash = self
+        let hash = match self
             .block_dir
             .store_or_deduplicate(take(&mut self.buf).freeze(), &mut self.stats, monitor)
-            .await?;
+            .await
+        {
+            Ok(hash) => hash,
+            Err(err) => {
+                // The buffered content is gone, so the queued files can no longer be
+                // stored: forget them too, otherwise a later flush would record them
+                // with offsets into a different block.
+                self.queue.clear();
+                return Err(err);
+            }
+        };
         self.stats.combined_blocks += 1;
         self.finished
             .extend(self.queue.drain(..).map(|qf| IndexEntry {
